@@ -212,6 +212,12 @@ func (ctx aeadContentCipher) decrypt(key, aad []byte, parts *aeadParts) ([]byte,
 		return nil, err
 	}
 
+	// The IV comes from the (possibly tampered) message; AEADs panic on a
+	// nonce of the wrong length.
+	if len(parts.iv) != aead.NonceSize() {
+		return nil, ErrCryptoFailure
+	}
+
 	return aead.Open(nil, parts.iv, append(parts.ciphertext, parts.tag...), aad)
 }
 
